@@ -35,16 +35,22 @@ def scenario(args):
         f, n = d.start_schedule(fault if pos == 0 else None, contend if pos == 0 else None)
         fired = fired or f or (pos == 0 and kind == "contend")
         for p in (1, 2):
-            if check_load and fired:
+            if check_load is True and fired:
                 break
             d.mutate()
             f, n = d.tick(fault if pos == p else None, contend if pos == p else None)
             fired = fired or f or (pos == p and kind == "contend")
         if kind == "fail" and not fired:
             return None
-        if check_load:
+        if check_load is True:
             # the failed attempt must leave the previous file loadable
             d.crash_now(seed % 2 == 0)
+            d.startup()
+        elif check_load == "quiet":
+            # nothing else happens: the next attempt alone must bring the then-current state to disk (also when the
+            # disturbed attempt "succeeded" on a snapshot that missed the concurrent change)
+            d.tick()
+            d.crash_now(True)
             d.startup()
         else:
             # the next successful attempt persists the then-current state
@@ -74,13 +80,14 @@ def run(tier):
             for pos in (0, 1, 2):
                 ks = range(nops) if tier == "thorough" else (range(nops) if pos == 1 else list(range(0, nops, 3)) + [nops - 3, nops - 2, nops - 1])
                 for k in ks:
-                    for check_load in (False, True):
+                    for check_load in (False, True, "quiet"):
                         jobs.append((ext, flavour, "fail", pos, k, check_load, len(jobs)))
                         if k >= nops - 5:       # renames / remove: also with a symlinked persistence file
                             jobs.append((ext, flavour, "fail", pos, k, check_load, len(jobs), True))
                 for k in range(0, 8 if tier == "quick" else 14):
                     jobs.append((ext, flavour, "contend", pos, k, False, len(jobs)))
                     jobs.append((ext, flavour, "contend", pos, k, True, len(jobs)))
+                    jobs.append((ext, flavour, "contend", pos, k, "quiet", len(jobs)))
     with mp.get_context("fork").Pool(common.ncpu()) as pool:
         traces = [t for t in pool.map(scenario, jobs, chunksize=4) if t is not None]
     rej, stats = ptrace.validate(traces, os.path.join(wd, "val"))
